@@ -145,9 +145,21 @@ func main() {
 	// connections that did not negotiate HTTP/2 produce no HTTP/2 fingerprint
 	for i := 0; i < run.Pick(30, 300); i++ {
 		tg := targets[i%len(targets)]
-		s, err := rig.Dial(tg.addr, []string{"http/1.1"}, nil, nil)
+		// every other client offers no ALPN at all (negotiated protocol "": HTTP/1.1 is spoken; after seeded change C03-L),
+		// and every fourth offers a protocol the server does not know next to http/1.1
+		alpn := []string{"http/1.1"}
+		switch i % 4 {
+		case 1, 3:
+			alpn = nil
+		case 2:
+			alpn = []string{"acme-tls/1", "http/1.1"}
+		}
+		s, err := rig.Dial(tg.addr, alpn, nil, nil)
 		if err != nil {
 			continue
+		}
+		if alpn == nil {
+			run.Add("http1_connections_without_alpn", 1)
 		}
 		tag := fmt.Sprintf("C03-%d-h1-%d", run.Seed, i)
 		if resp, err := s.Do("GET", "/h1", "front.example", [][2]string{{rig.TagHeader, tag}}, nil, 20*time.Second); err == nil && resp.Status == 200 {
@@ -163,6 +175,7 @@ func main() {
 	}
 	run.Require("requests_judged", 300)
 	run.Require("http1_requests_judged", 10)
+	run.Require("http1_connections_without_alpn", 5)
 	run.Assume("only frame sequences the server accepts are generated (illegal ones are C13's business); admissible instants for a request are the history prefixes from its own completed header block up to the last frame written before its response was received")
 	run.Finish()
 }
